@@ -310,7 +310,12 @@ class LenInterp(Interp):
                 rec["expected"] = show_lin(expected)
                 unknown_off = [a for a in expected.atoms() if isinstance(a, tuple) and len(a) > 1 and
                                isinstance(a[1], tuple) and a[1] and a[1][0] == "aoff" and a not in added.atoms()]
-                if not ok and unknown_off:
+                def opaque_atom(a):
+                    # value produced by a callee that was not inlined (not an alias offset/length of a sub-slice)
+                    r_ = repr(a)
+                    return "'ret'" in r_ and "'aoff'" not in r_ and "'alen'" not in r_
+                added_opaque = any(opaque_atom(a) for a in added.atoms())
+                if not ok and unknown_off and added_opaque:
                     # the callee that produced the sub-slice does not expose its (wire dependent) offset: inconclusive
                     rec["inconclusive"] = True
                     rec["expected"] = None
